@@ -95,3 +95,10 @@ add("C12", "E4 histories", "model_checking",
     "Every history of <=2 (quick) / <=3 (thorough) operations over a catalogue of 27 public-API activities (passing/failing/raising array and PyTree checks in and outside contexts, custom nodes, leaf __instancecheck__, nested PyTrees, '?' misuse, decorated calls ok/ill-typed/raising, decoration new/old/old-generator with a shared annotation object, dataclass, pickle/copy, hook install+import+uninstall, config toggle, name format) is executed and followed by a 30-observation probe battery that must equal the pristine battery; every operation is re-executed with an Exception and a BaseException injected at each of its call-out points (shape/dtype/repr, __instancecheck__, flatten, symbolic functions, body, typechecker, module body), each followed by the battery.",
     "Call-outs are harness-owned objects; the battery uses public API plus two internal reads (stack depth, transient flags); after a violation the state is restored by a best-effort reset and verified pristine before continuing.",
     "DESIGN.md §6 C12")
+
+ENGINES[1]["serves_properties"] += ["C10"]
+add("C10", "E5 space", "translation_validation",
+    "translation validation of the real source transformer: complete corpus walk plus bounded-exhaustive module grammar, plain vs hooked compared at AST, code-object and execution level",
+    "For every module of the corpus (stdlib in quick; stdlib + site-packages, ~9.5k files, in thorough) and of a generated grammar (<=4 top-level items x decorator stacks x nesting x both typechecker spellings) the real JaxtypingTransformer / _JaxtypingLoader.source_to_code / IPython magic is run: the hooked tree compiles; stripping exactly the three permitted additions reproduces the untouched ast.dump(include_attributes=True); every added decorator evaluates to the registered jaxtyped(typechecker=...) expression; future flags, docstring, function co_firstlineno and leaf code objects agree bit for bit; executed generated modules produce identical logs, results and traceback line numbers plain vs hooked (identity-spy typechecker).",
+    "Trusted: CPython compile() determinism. Don't-care: zero imports in modules without def/class; import position anywhere between the docstring/__future__ block and the first def/class; source locations of the added nodes themselves; first-line shift of classes that already had decorators. Quick caps the length-3/4 generated spaces (stated in coverage.caps).",
+    "DESIGN.md §6 C10")
